@@ -1,4 +1,4 @@
-SPECIFICATION Spec
+SPECIFICATION Spec3
 CONSTANTS KindSet = {"axis", "line", "text", "graph", "world"} MaxOps = 3
 VIEW View
 INVARIANTS TypeOK Refines OwnStrings InDomain
